@@ -376,6 +376,22 @@ def published(eng):
             out['store_' + key] = mark(getattr(eng.state, getter)() or {})
         except Exception as e:
             out['store_' + key] = 'ERR %r' % (e,)
+    # which object is published under each path, which one the hierarchy holds there
+    def idmap(tree, path=()):
+        d = {}
+        if isinstance(tree, dict):
+            for k, v in tree.items():
+                d.update(idmap(v, path + (k,)))
+        elif isinstance(tree, Process):
+            d['/'.join(str(x) for x in path)] = id(tree)
+        return d
+    try:
+        hid = dict(idmap(eng.state.get_processes() or {}), **idmap(eng.state.get_steps() or {}))
+        out['stale_objects'] = sorted(
+            (kind, p_) for kind, attr in (('processes', 'processes'), ('steps', 'steps'))
+            for p_, i_ in idmap(getattr(eng, attr)).items() if p_ in hid and hid[p_] != i_)
+    except Exception:
+        out['stale_objects'] = None
     # every branch node of the hierarchy (for: no published compartment without a store)
     nodes = []
 
@@ -1399,6 +1415,11 @@ def check_published(case, run):
         if pt != st:
             return [V('C10', 'C10.published', 'topology',
                       'after op %d the engine publishes topology %r, the hierarchy holds %r' % (i, pt, st))]
+        if pub.get('stale_objects'):
+            kind_, p_ = pub['stale_objects'][0]
+            return [V('C10', 'C10.published', 'stale-object',
+                      'after op %d the engine publishes under %s/%s an object that is not the one the '
+                      'hierarchy holds at that path' % (i, kind_, p_))]
         if pub.get('nodes') is not None:
             have = set(tuple(n) for n in pub['nodes'])
             for key in ('processes', 'steps', 'topology'):
